@@ -72,7 +72,7 @@ def faulty_seq(rng, tags, cid, fault, place, limit):
 
 
 def without(script, faulty):
-    return [e for e in script if not (e[0] in ("n", "a", "c", "fr", "fw", "si", "se") and e[1] in faulty)]
+    return [e for e in script if not (e[0] in ("n", "a", "c", "fr", "fw", "si", "se", "wp") and e[1] in faulty)]
 
 
 def gen_cases(ck, limit):
@@ -157,6 +157,18 @@ def gen_cases(ck, limit):
                         ev += [["si", h, 40 + j, 1], ["p"]]
                     ev += [["se", h], ["p"], ["p"]]
                     add(ev, [f], [h], "hangup_during_stream", {"fault": "hangup_" + how, "items": n_items})
+    # (g) the fault happens while Service::handle / a reply write for a healthy client is suspended
+    for k in (1, 2):
+        for fault in ("garbage", "eof_clean", "read_error", "utf8_ff@bare"):
+            for what in ("hg", "wp"):
+                tags = sg.Tags()
+                t1 = tags.next()
+                frh = [sg.call("Echo", 1, t1, v=1), sg.call("Count", 1, tags.next())]
+                fseq = faulty_seq(rng, tags, 0, fault, 0, limit)[1:]
+                ev = [["n", 0], ["n", 1], ["p"], (["hg", t1, k] if what == "hg" else ["wp", 1, 0, k]),
+                      ["a", 1, sg.wire(frh).hex()], ["p"]] + fseq + [["p"]] * (2 * k + 3)
+                add(ev, [0], [1], "fault_while_suspended", {"fault": fault, "k": k, "what": what})
+                cases[-1]["spec_only"] = cases[-2]["spec_only"] = True
     # (d) the faulty client is in reply-stream mode: it makes a `more` call (the service answers Multi), some
     #     items go through, then its write fails at item k (every k) -- with 0..3 healthy plain clients (also a
     #     healthy streaming one, so that the failing stream is not at index 0), and with NO other connection,
